@@ -203,6 +203,19 @@ def keySpan (s : Str) : Str × Str :=
     | '?' :: r => (['?'], r)
     | _ => ([], s)
 
+/-- what a `$` followed by `cs` means: `none` = a literal `$` (scanning goes on after it),
+`some (key, rest)` = a reference to `key`, scanning goes on with `rest` -/
+def dollarRef (cs : Str) : Option (Str × Str) :=
+  match cs with
+  | '{' :: r =>
+    (match keySpan r with
+     | (k :: ks, '}' :: rest') => some (k :: ks, rest')
+     | _ => none)
+  | _ =>
+    (match keySpan cs with
+     | ([], _) => none
+     | (k, rest) => some (k, rest))
+
 /-- `expand_envs_in_token`: one left-to-right pass, inserted values are not scanned again.
 The fuel only makes the recursion structural; `length + 1` is always enough (`expandEnvs`). -/
 def expandEnvsAux (e : Env) : Nat → Str → Str
@@ -210,14 +223,9 @@ def expandEnvsAux (e : Env) : Nat → Str → Str
   | _ + 1, [] => []
   | f + 1, c :: cs =>
     if c ≠ '$' then c :: expandEnvsAux e f cs
-    else match cs with
-      | '{' :: r =>
-        (match keySpan r with
-         | (_ :: _, '}' :: rest') => e.keyValue (keySpan r).1 ++ expandEnvsAux e f rest'
-         | _ => '$' :: expandEnvsAux e f cs)
-      | _ =>
-        if (keySpan cs).1 = [] then '$' :: expandEnvsAux e f cs
-        else e.keyValue (keySpan cs).1 ++ expandEnvsAux e f (keySpan cs).2
+    else match dollarRef cs with
+      | none => '$' :: expandEnvsAux e f cs
+      | some (key, rest) => e.keyValue key ++ expandEnvsAux e f rest
 
 def expandEnvs (e : Env) (t : Str) : Str := expandEnvsAux e (t.length + 1) t
 
